@@ -26,7 +26,7 @@ def run(ctx, rep):
     rep.rule("R07-CHECK", "Environment::check_exhaustiveness: useful row -> pushed, useless -> RedundantMatchClause, missing patterns -> NotExhaustivePatternMatch, else Ok", floor=4)
     rep.rule("R07-CALLERS", "Matrix::is_useful / collect_missing_patterns are driven only by check_exhaustiveness (and themselves)", floor=2)
     rep.rule("R07-VARIANTS", "pattern translations of both implementations have an explicit arm per Pattern variant", floor=2)
-    rep.rule("R07-CTORS", "both implementations take a type's constructor set from its definition", floor=2)
+    rep.rule("R07-CTORS", "both implementations take a type's constructor set from its definition (the defining module's table); clause alternatives keep their source order", floor=4)
     rep.guarded("R07-CALLED", lambda: r_called(sh, rep))
     rep.guarded("R07-CHECK", lambda: r_check(sh, rep))
     rep.guarded("R07-CALLERS", lambda: r_callers(fl, rep))
@@ -36,6 +36,13 @@ def run(ctx, rep):
     rep.guarded("R07-SEED", lambda: r_seed(sh, rep))
     rep.rule("R07-TAILPICK", "the tree run for a list of a given length is chosen among the `[.., ..tail]` cases by longest fitting prefix, never by position in the case table", floor=2)
     rep.guarded("R07-TAILPICK", lambda: r_tailpick(sh, rep))
+    rep.rule("R12-TAG", "the decision tree tests the constructor index the constructor is built with (@tag if present): indices are derived only where @tag is read (shared with C12)", floor=4)
+
+    def tag():
+        from . import c12
+        c12.r_tag(sh, rep)
+
+    rep.guarded("R12-TAG", tag)
     rep.rule("R07-LEAFARGS", "a clause body hoisted out of the decision tree is called, at every leaf, with its arguments in the order of its parameters", floor=1)
     rep.guarded("R07-LEAFARGS", lambda: r_leafargs(sh, rep))
     rep.rule("R07-LITEQ", "literal patterns are told apart exactly: equality on exhaustive::Literal / Pattern is structural (derived) or, if written by hand, free of lossy conversions", floor=2)
@@ -159,6 +166,40 @@ def r_ctors(sh, rep):
     fj = sh.file(DT)
     srcs = "".join(sh.nsrc(DT, fn["body"]) for q, fn in all_fns(fj) if "body" in fn and ("map_pattern_to_row" in q or "do_build_tree" in q or "build_tree" in q))
     rep.check("lookup_data_type_by_tipo(" in srcs, "R07-CTORS", "decision_tree#constructors-from-the-type-definition", DT, "the decision-tree builder must obtain a type's constructors through lookup_data_type_by_tipo")
+    # the checker's constructor sets: a type defined in another module is looked up in *that* module's table; the local
+    # table (keyed by bare type name) answers only for the current module and the prelude
+    ENVF = "crates/aiken-lang/src/tipo/environment.rs"
+    g = find_method(sh.file(ENVF), "Environment", "get_constructors_for_type")
+    rep.touched(ENVF, "Environment::get_constructors_for_type")
+    mod_param = [i["pat"].get("name") for i in g["sig"]["inputs"] if isinstance(i.get("pat"), dict) and "module" in (i["pat"].get("name") or "")]
+    ifs = [n for n in walk(g["body"]) if n.get("k") == "If" and n.get("else") is not None and "importable_modules" in sh.nsrc(ENVF, n["else"]) and "importable_modules" not in sh.nsrc(ENVF, n["then"])]
+    if not ifs or not mod_param:
+        raise AnchorMissing("the local-vs-imported branch of get_constructors_for_type")
+    atoms = []
+
+    def split(e):
+        if e.get("k") == "Binary" and e["op"] in ("||", "&&"):
+            split(e["l"])
+            split(e["r"])
+        elif e.get("k") == "Paren":
+            split(e["e"])
+        else:
+            atoms.append(sh.nsrc(ENVF, e))
+
+    split(ifs[0]["cond"])
+    foreign = [a for a in atoms if not re.search(r"(?<![\w.])%s\b" % re.escape(mod_param[0]), a)]
+    rep.check(not foreign, "R07-CTORS", "get_constructors_for_type#local-table-only-for-local-types", sh.loc(ENVF, ifs[0]), "the local constructor table is consulted under `%s`, which does not depend on the type's defining module `%s`: an imported type whose name collides with a local or prelude type gets the other type's constructors — a non-exhaustive `when` is accepted, an exhaustive one rejected" % (foreign, mod_param[0]), sample={"condition": atoms})
+    # alternatives `p1 | p2 | p3` keep their source order through type checking (both the usefulness check and the decision
+    # tree read the typed list)
+    TEXP = "crates/aiken-lang/src/tipo/expr.rs"
+    h = find_method(sh.file(TEXP), "ExprTyper", "infer_clause_pattern")
+    rep.touched(TEXP, "ExprTyper::infer_clause_pattern")
+    muts = [n for n in walk(h["body"]) if n.get("k") == "MethodCall" and sh.nsrc(TEXP, n["recv"]) == "typed_patterns" and n["m"] in ("push", "extend", "insert", "append", "reverse", "rotate_left", "rotate_right", "swap", "sort", "sort_by", "sort_by_key", "extend_from_slice", "splice", "drain", "remove", "retain", "truncate", "pop")]
+    loops = [n for n in walk(h["body"]) if n.get("k") == "For" and re.search(r"(?<![\w.])patterns\b", sh.nsrc(TEXP, n["e"]))]
+    inside = {id(x) for lp in loops for x in walk(lp["body"])}
+    stray = [n for n in muts if n["m"] != "push" or id(n) not in inside]
+    rev = [lp for lp in loops if re.search(r"\.rev\(\)|\.skip\(|\.step_by\(", sh.nsrc(TEXP, lp["e"]))]
+    rep.check(len(loops) == 1 and muts and not stray and not rev, "R07-CTORS", "infer_clause_pattern#alternatives-keep-source-order", sh.loc(TEXP, stray[0]) if stray else sh.loc(TEXP, h), "the typed alternatives of a clause must be pushed one by one in a single forward loop over `patterns` (found %d loop(s), stray operations %s): any other order changes which alternative is tried first, and which one the redundancy check blames" % (len(loops), [n["m"] for n in stray]), sample={"pushes": len(muts)})
 
 
 # ---------------------------------------------------------------------------------------------------------
